@@ -193,6 +193,18 @@ Proof.
   rewrite (HD _ _ (HB eq_refl _ _ Hin)). cbn. apply N.eqb_refl.
 Qed.
 
+Lemma batch_weak_of T (ents : list entity) ids s :
+  length ids = length ents ->
+  (forall ent id, In (ent, id) (combine ents ids) -> id = 0 \/ In (fst ent, id) (hist s)) ->
+  hist_in s T -> batch_ok T ents OcErrEmpty ids = true.
+Proof.
+  intros Hlen HA HH. unfold batch_ok. rewrite Hlen, Nat.eqb_refl. cbn [ok_outcome andb].
+  apply forallb_forall. intros [ent id] Hin. cbn [fst snd].
+  destruct (nlookup id (t_i2u T)) as [u'|] eqn:E; [|reflexivity].
+  destruct (HA _ _ Hin) as [-> | Hh]; [reflexivity|].
+  rewrite (HH _ _ _ Hh E), str_eqb_refl. apply orb_true_r.
+Qed.
+
 Lemma combine_pad {A} (l : list A) : forall (a : list N) n x y,
   In (x, y) (combine l (a ++ repeat 0 n)) -> In (x, y) (combine l a) \/ y = 0.
 Proof.
@@ -201,6 +213,35 @@ Proof.
   - destruct n; cbn; [tauto|]. intros [H|H]; [injection H as _ <-; now right|].
     destruct (IH [] n x y H) as [H'|H']; [destruct l; contradiction | now right].
   - intros [H|H]; [left; now left|]. destruct (IH a n x y H); [left; now right | now right].
+Qed.
+
+(** stored pairs *)
+Lemma In_ins x p l : In x (ins p l) -> x = p \/ In x l.
+Proof.
+  induction l as [|q l IH]; cbn; [intros [<-|[]]; now left|].
+  destruct (snd p <? snd q); [cbn; intros [<-|H]; [now left | now right]|].
+  destruct (N.eqb (snd p) (snd q) && str_eqb (fst p) (fst q)); [intros H; now right|].
+  cbn. intros [<-|H]; [right; now left|]. destruct (IH H); [now left | right; now right].
+Qed.
+
+Lemma In_fold_ins ps : forall l x, In x (fold_left (fun l p => ins p l) ps l) -> In x ps \/ In x l.
+Proof.
+  induction ps as [|p ps IH]; intros l x; cbn; [now right|].
+  intros H. destruct (IH _ _ H) as [H1|H1]; [left; now right|].
+  destruct (In_ins _ _ _ H1) as [->|H2]; [left; now left | now right].
+Qed.
+
+Lemma pairs_in_view us vw x : In x (pairs_in us vw) -> In x vw.
+Proof.
+  induction us as [|u us IH]; cbn; [tauto|].
+  destruct (slookup u vw) as [i|] eqn:E; [|exact IH].
+  intros [<-|H]; [now apply slookup_In | auto].
+Qed.
+
+Lemma add_stored_incl ents s stored D : incl stored D -> incl (view s) D -> incl (add_stored ents s stored) D.
+Proof.
+  intros H1 H2 x Hx. unfold add_stored in Hx. destruct (In_fold_ins _ _ _ Hx) as [H|H]; [|auto].
+  apply H2. eapply pairs_in_view, H.
 Qed.
 
 Section FixedStrong.
@@ -305,11 +346,12 @@ Section FixedStrong.
     good (wid w) ->
     let w1 := fst (write_path v_fixed L k ds ents w) in
     good (wid w1) /\ id_ext (wid w) (wid w1) /\ wns w1 = wns w
+    /\ (incl (wstored w) (disk (wid w)) -> incl (wstored w1) (disk (wid w1)))
     /\ exists oc ids, snd (write_path v_fixed L k ds ents w) = HOBatch oc ids
          /\ forall T, disk_in (wid w1) T -> hist_in (wid w1) T -> batch_ok T ents oc ids = true.
   Proof.
     intros Hg. unfold write_path. destruct ents as [|e0 ents0].
-    { cbn [fst snd]. split; [assumption|]. split; [apply id_ext_refl|]. split; [reflexivity|].
+    { cbn [fst snd]. split; [assumption|]. split; [apply id_ext_refl|]. split; [reflexivity|]. split; [auto|].
       exists OcOk, []. split; [reflexivity|]. intros T _ _. reflexivity. }
     set (ents := e0 :: ents0).
     pose proof (run_ents_strong ds (wdata w) ents (wid w) Hg) as H.
@@ -322,11 +364,13 @@ Section FixedStrong.
     { intros s Hs ent id Hi. destruct (combine_pad _ _ _ _ _ Hi) as [Hi'|Hz]; [|now left].
       right. apply (proj2 Hs). apply (Hin _ _ Hi'). }
     assert (Hfail : oc <> OcOk ->
-      let w1 := {| wns := wns w; wid := s1; wdata := wdata w |} in
+      let w1 := {| wns := wns w; wid := s1; wdata := wdata w; wstored := wstored w |} in
       good (wid w1) /\ id_ext (wid w) (wid w1) /\ wns w1 = wns w
+      /\ (incl (wstored w) (disk (wid w)) -> incl (wstored w1) (disk (wid w1)))
       /\ exists oc' ids0, HOBatch oc ids' = HOBatch oc' ids0
            /\ forall T, disk_in (wid w1) T -> hist_in (wid w1) T -> batch_ok T ents oc' ids0 = true).
     { intros Hne. cbn. split; [assumption|]. split; [assumption|]. split; [reflexivity|].
+      split; [intros Hs; eapply incl_tran; [exact Hs | apply (proj1 He1)]|].
       exists oc, ids'. split; [reflexivity|]. intros T HD HH.
       exact (batch_ok_of T ents oc ids' s1 Ho1 Hlen' (HA s1 (id_ext_refl s1)) (fun E => False_ind _ (Hne E)) HD HH). }
     destruct oc; try (apply Hfail; discriminate). clear Hfail.
@@ -340,19 +384,28 @@ Section FixedStrong.
     { intros s Hs ent id Hi. rewrite Hids in Hi. apply (proj1 Hs). rewrite Hd2. apply (Hin _ _ Hi). }
     destruct ((0 <? ni)%nat && negb (str_eqb ds s_core)).
     - destruct (nested_update_strong ds s2 Hg2) as (Hg3 & He3 & Ho3).
-      destruct (nested_update L ds s2) as [s3 oc3]. cbn [fst snd wid wns] in *.
+      destruct (nested_update L ds s2) as [s3 oc3]. cbn [fst snd wid wns wstored] in *.
       split; [assumption|]. split; [eapply id_ext_trans; [eassumption|]; eapply id_ext_trans; eassumption|].
-      split; [reflexivity|]. exists oc3, ids'. split; [reflexivity|]. intros T HD HH.
+      split; [reflexivity|].
+      split; [intros Hs; apply add_stored_incl;
+              [eapply incl_tran; [exact Hs|]; eapply incl_tran; [apply (proj1 He1)|]; eapply incl_tran; [apply (proj1 He2) | apply (proj1 He3)]
+              | rewrite <- Hd2; apply (proj1 He3)]|].
+      exists oc3, ids'. split; [reflexivity|]. intros T HD HH.
       exact (batch_ok_of T ents oc3 ids' s3 Ho3 Hlen' (HA s3 (id_ext_trans _ _ _ He2 He3)) (fun _ => HB s3 He3) HD HH).
-    - cbn [fst snd wid wns]. split; [assumption|]. split; [eapply id_ext_trans; eassumption|].
-      split; [reflexivity|]. exists OcOk, ids'. split; [reflexivity|]. intros T HD HH.
+    - cbn [fst snd wid wns wstored]. split; [assumption|]. split; [eapply id_ext_trans; eassumption|].
+      split; [reflexivity|].
+      split; [intros Hs; apply add_stored_incl;
+              [eapply incl_tran; [exact Hs|]; eapply incl_tran; [apply (proj1 He1) | apply (proj1 He2)]
+              | rewrite <- Hd2; apply incl_refl]|].
+      exists OcOk, ids'. split; [reflexivity|]. intros T HD HH.
       exact (batch_ok_of T ents OcOk ids' s2 (or_introl eq_refl) Hlen' (HA s2 He2) (fun _ => HB s2 (id_ext_refl s2)) HD HH).
   Qed.
 End FixedStrong.
 
 (** ** the whole store *)
 Definition winv (w : world) : Prop :=
-  nsw_inv (wns w) /\ ns_extra (mem (nst (wns w))) /\ good (wid w).
+  nsw_inv (wns w) /\ ns_extra (mem (nst (wns w))) /\ good (wid w)
+  /\ incl (wstored w) (disk (wid w)).   (* ids carried by durable entities have durable id records *)
 Definition wext (w w' : world) : Prop :=
   p2e_ext (p2e (mem (nst (wns w)))) (p2e (mem (nst (wns w')))) /\ id_ext (wid w) (wid w').
 (** [T] contains everything [w] has handed out *)
@@ -380,7 +433,7 @@ Proof. induction l as [|[u j] l IH]; cbn; [reflexivity|]. destruct (N.eqb i j); 
 
 Lemma text_final w : winv w -> text w (tables_of w).
 Proof.
-  intros (_ & _ & [Hinv _]). split; [|split].
+  intros (_ & _ & [Hinv _] & _). split; [|split].
   - apply p2e_ext_refl.
   - intros u i Hin. cbn. apply sIn_lookup; [apply (idinv_disk_keys _ Hinv) | exact Hin].
   - intros u i u' Hin Hl. cbn in Hl. rewrite nlookup_swap in Hl. apply rlookup_In in Hl.
@@ -388,23 +441,27 @@ Proof.
 Qed.
 
 Lemma dump_event w T : winv w -> text w T ->
-  spec_event T (HDump, HODump (p2e (mem (nst (wns w)))) (e2p (mem (nst (wns w)))) (disk (wid w)) (swap_pairs (disk (wid w)))) = true.
+  spec_event T (HDump, HODump (p2e (mem (nst (wns w)))) (e2p (mem (nst (wns w)))) (disk (wid w)) (swap_pairs (disk (wid w)))
+                              (wstored w)) = true.
 Proof.
-  intros (Hn & _ & _) (A & B & _). cbn [spec_event]. apply andb_true_iff. split; apply forallb_forall.
+  intros (Hn & _ & _ & Hs) (A & B & _). cbn [spec_event]. rewrite !andb_true_iff. split; [split|]; apply forallb_forall.
   - intros [p e] Hin. cbn [fst snd]. unfold maps_to.
     assert (E : slookup p (p2e (mem (nst (wns w)))) = Some e) by (apply sIn_lookup; [apply nsinv_p2e_nodup, Hn | exact Hin]).
     rewrite (A _ _ E). apply ostr_eqb_some.
   - intros [u i] Hin. cbn [fst snd]. unfold id_is. rewrite (B _ _ Hin). cbn. apply N.eqb_refl.
+  - intros [u i] Hin. cbn [fst snd]. unfold id_is. rewrite (B _ _ (Hs _ Hin)). cbn. apply N.eqb_refl.
 Qed.
 
 Lemma dump_ok_world w : winv w ->
-  dump_ok (HODump (p2e (mem (nst (wns w)))) (e2p (mem (nst (wns w)))) (disk (wid w)) (swap_pairs (disk (wid w)))) = true.
+  dump_ok (HODump (p2e (mem (nst (wns w)))) (e2p (mem (nst (wns w)))) (disk (wid w)) (swap_pairs (disk (wid w)))
+                  (wstored w)) = true.
 Proof.
-  intros ([[Hk Hb] _] & [Hnd Hlen] & [Hinv _]). cbn [dump_ok].
+  intros ([[Hk Hb] _] & [Hnd Hlen] & [Hinv _] & Hs). cbn [dump_ok].
   assert (Hkp : NoDup (map fst (p2e (mem (nst (wns w)))))) by (apply nsinv_p2e_nodup; split; assumption).
   destruct (idinv_disk_keys _ Hinv) as [Kd Id].
-  rewrite Hlen, Nat.eqb_refl. unfold swap_pairs at 1. rewrite map_length, Nat.eqb_refl. cbn [andb].
+  rewrite Hlen, Nat.eqb_refl. unfold swap_pairs at 1. rewrite map_length, Nat.eqb_refl. rewrite !andb_true_r.
   repeat (apply andb_true_iff; split); apply forallb_forall.
+  - intros [u i] Hin. cbn [fst snd]. rewrite (sIn_lookup _ _ _ Kd (Hs _ Hin)). cbn. apply N.eqb_refl.
   - intros [p e] Hin. cbn [fst snd]. rewrite (proj1 (Hb p e) (sIn_lookup _ _ _ Hkp Hin)). apply ostr_eqb_some.
   - intros [e p] Hin. cbn [fst snd]. rewrite (proj2 (Hb p e) (sIn_lookup _ _ _ Hnd Hin)). apply ostr_eqb_some.
   - intros [u i] Hin. cbn [fst snd]. rewrite nlookup_swap, (In_rlookup _ _ _ Id Hin). apply ostr_eqb_some.
@@ -422,48 +479,128 @@ Section WorldFixed.
   Lemma spec_ctxtxn T k ds ents oc ids : spec_event T (HCtxTxn k ds ents, HOBatch oc ids) = batch_ok T ents oc ids.
   Proof. reflexivity. Qed.
 
+  Lemma spec_crash T tp k ds ents pt oc ids :
+    spec_event T (HCrashWrite tp k ds ents pt, HOBatch oc ids) = ok_outcome oc && batch_ok T ents OcErrEmpty ids.
+  Proof. cbn [spec_event]. unfold batch_ok. cbn [ok_outcome]. destruct (ok_outcome oc); reflexivity. Qed.
+
+  Lemma oc_ok_true oc : oc_ok oc -> ok_outcome oc = true.
+  Proof. intros [-> | ->]; reflexivity. Qed.
+
+  (** a write during which the process dies, at any of the hook points *)
+  Lemma crash_write_strong tp k ds ents pt w :
+    winv w ->
+    let w1 := fst (crash_write v_fixed L tp k ds ents pt w) in
+    winv w1 /\ wext w w1
+    /\ exists oc ids, snd (crash_write v_fixed L tp k ds ents pt w) = HOBatch oc ids /\ oc_ok oc
+         /\ forall T, hist_in (wid w1) T -> batch_ok T ents OcErrEmpty ids = true.
+  Proof.
+    intros (Hn & Hx & Hg & Hs). unfold crash_write. destruct ents as [|e0 ents0].
+    { cbn [fst snd]. split; [split; [assumption|]; split; [assumption|]; split; assumption|]. split; [apply wext_refl|].
+      exists OcOk, []. split; [reflexivity|]. split; [now left|]. intros T _. reflexivity. }
+    set (ents := e0 :: ents0).
+    pose proof (run_ents_strong L HL ds (wdata w) ents (wid w) Hg) as H.
+    destruct (run_ents L ds (wdata w) ents (wid w)) as [[[[s1 oc] ids] ni] pd].
+    destruct H as (Hg1 & He1 & _ & Ho1 & Hle & Hlen & Hin).
+    set (ids' := ids ++ repeat 0 (length ents - length ids)).
+    assert (Hlen' : length ids' = length ents).
+    { unfold ids'. rewrite app_length, repeat_length. lia. }
+    assert (HA : forall s, id_ext s1 s -> forall ent id, In (ent, id) (combine ents ids') -> id = 0 \/ In (fst ent, id) (hist s)).
+    { intros s Hs' ent id Hi. destruct (combine_pad _ _ _ _ _ Hi) as [Hi'|Hz]; [|now left].
+      right. apply (proj2 Hs'). apply (Hin _ _ Hi'). }
+    (* the two shapes a result can have *)
+    assert (Hlive : forall s oc', good s -> id_ext s1 s -> oc_ok oc' ->
+      let w1 := {| wns := wns w; wid := s; wdata := wdata w; wstored := wstored w |} in
+      winv w1 /\ wext w w1
+      /\ exists oc0 ids0, HOBatch oc' ids' = HOBatch oc0 ids0 /\ oc_ok oc0
+           /\ forall T, hist_in (wid w1) T -> batch_ok T ents OcErrEmpty ids0 = true).
+    { intros s oc' Hgs Hes Hoc. cbv zeta. unfold winv, wext. cbn [wns wid wstored].
+      assert (Hws : id_ext (wid w) s) by (eapply id_ext_trans; eassumption).
+      split; [split; [assumption|]; split; [assumption|]; split; [assumption|];
+              eapply incl_tran; [exact Hs | apply (proj1 Hws)]|].
+      split; [split; [apply p2e_ext_refl | exact Hws]|].
+      exists oc', ids'. split; [reflexivity|]. split; [assumption|].
+      intros T HH. exact (batch_weak_of T ents ids' s Hlen' (HA s Hes) HH). }
+    assert (Hdead : forall s data stored, good s -> id_ext s1 s -> incl stored (disk s) ->
+      let w1 := {| wns := fst (ns_step (v_alias v_fixed) NRestart (wns w)); wid := id_restart L true s;
+                   wdata := data; wstored := stored |} in
+      winv w1 /\ wext w w1
+      /\ exists oc0 ids0, HOBatch OcOk ids' = HOBatch oc0 ids0 /\ oc_ok oc0
+           /\ forall T, hist_in (wid w1) T -> batch_ok T ents OcErrEmpty ids0 = true).
+    { intros s data stored Hgs Hes Hst. cbv zeta. unfold winv, wext. cbn [wns wid wstored].
+      change (v_alias v_fixed) with AliasCopy.
+      pose proof (ns_step_inv AliasCopy NRestart (wns w) Hn) as [Hn1 Hp1].
+      pose proof (ns_step_extra AliasCopy NRestart (wns w) Hn Hx) as Hx1.
+      destruct Hgs as [Hi Ha]. destruct (id_restart_spec L HL true s Hi) as (Hi1 & Hie & Hd1 & Hm1).
+      assert (Hws : id_ext (wid w) (id_restart L true s)).
+      { eapply id_ext_trans; [exact He1|]. eapply id_ext_trans; eassumption. }
+      split; [split; [assumption|]; split; [assumption|]; split; [split; [assumption | unfold alive; cbn; discriminate]|];
+              first [rewrite Hd1; exact Hst | cbn; exact Hst]|].
+      split; [split; [exact Hp1 | exact Hws]|].
+      exists OcOk, ids'. split; [reflexivity|]. split; [now left|].
+      intros T HH. exact (batch_weak_of T ents ids' _ Hlen' (HA _ (id_ext_trans _ _ _ Hes Hie)) HH). }
+    destruct oc; try (apply (Hlive s1 _ Hg1 (id_ext_refl s1) Ho1)).
+    assert (Hc : match k with None => commit_main s1 | Some k0 => commit_ctx (v_ctx v_fixed) k0 s1 end = commit_main s1)
+      by (destruct k; reflexivity).
+    assert (Hs1 : incl (wstored w) (disk s1)) by (eapply incl_tran; [exact Hs | apply (proj1 He1)]).
+    destruct pt as [|pt'].
+    - apply (Hdead s1 _ _ Hg1 (id_ext_refl s1) Hs1).
+    - cbn [v_order v_fixed]. rewrite Hc. destruct (commit_main_strong s1 Hg1) as (Hg2 & He2 & Hr & Hd2).
+      destruct (commit_main s1) as [s2 r]. cbn [fst snd] in *. subst r.
+      assert (Hs2 : incl (wstored w) (disk s2)) by (eapply incl_tran; [exact Hs1 | apply (proj1 He2)]).
+      destruct pt'.
+      + apply (Hdead s2 _ _ Hg2 He2 Hs2).
+      + apply (Hdead s2 _ _ Hg2 He2). apply add_stored_incl; [exact Hs2 | rewrite Hd2; apply incl_refl].
+  Qed.
+
   Lemma wstep_strong op w :
     winv w ->
     let w1 := fst (wstep v_fixed L op w) in
     winv w1 /\ wext w w1 /\ dump_ok (snd (wstep v_fixed L op w)) = true
     /\ forall T, text w1 T -> spec_event T (op, snd (wstep v_fixed L op w)) = true.
   Proof.
-    intros (Hn & Hx & Hg). destruct op; cbn [wstep].
+    intros Hw. pose proof Hw as (Hn & Hx & Hg & Hs). destruct op; cbn [wstep].
     - (* HNs *)
       pose proof (ns_step_inv AliasCopy o (wns w) Hn) as [Hn1 He1].
       pose proof (ns_step_extra AliasCopy o (wns w) Hn Hx) as Hx1.
       pose proof (ns_step_event o (wns w)) as Hev.
       change (v_alias v_fixed) with AliasCopy.
-      destruct (ns_step AliasCopy o (wns w)) as [n r]. cbn [fst snd wns wid] in *.
-      split; [split; [assumption|]; split; assumption|]. split; [split; [assumption | apply id_ext_refl]|].
+      destruct (ns_step AliasCopy o (wns w)) as [n r]. cbn [fst snd wns wid wstored] in *.
+      split; [split; [assumption|]; split; [assumption|]; split; assumption|].
+      split; [split; [assumption | apply id_ext_refl]|].
       split; [reflexivity|]. intros T (A & _ & _). apply Hev; assumption.
     - (* HBatch *)
-      destruct (write_path_strong L HL None ds ents w Hg) as (Hg1 & He1 & Hns & oc & ids & Ho & Hev).
+      destruct (write_path_strong L HL None ds ents w Hg) as (Hg1 & He1 & Hns & Hst & oc & ids & Ho & Hev).
       cbv zeta. rewrite Ho. unfold winv, wext. rewrite Hns.
-      split; [split; [assumption|]; split; assumption|].
+      split; [split; [assumption|]; split; [assumption|]; split; [assumption | apply Hst, Hs]|].
       split; [split; [apply p2e_ext_refl | assumption]|]. split; [reflexivity|].
       intros T (_ & B & C). rewrite spec_batch. apply Hev; assumption.
     - (* HCtxNew *)
-      cbn [fst snd wns wid id_step]. split; [split; [assumption|]; split; [assumption|]|].
+      cbn [fst snd wns wid wstored id_step]. split; [split; [assumption|]; split; [assumption|]; split|].
       + destruct Hg as [Hi Ha]. split; [|exact Ha]. destruct Hi. constructor; auto.
+      + exact Hs.
       + split; [split; [apply p2e_ext_refl | split; cbn; apply incl_refl]|]. split; reflexivity.
     - (* HCtxTxn *)
-      destruct (write_path_strong L HL (Some k) ds ents w Hg) as (Hg1 & He1 & Hns & oc & ids & Ho & Hev).
+      destruct (write_path_strong L HL (Some k) ds ents w Hg) as (Hg1 & He1 & Hns & Hst & oc & ids & Ho & Hev).
       cbv zeta. rewrite Ho. unfold winv, wext. rewrite Hns.
-      split; [split; [assumption|]; split; assumption|].
+      split; [split; [assumption|]; split; [assumption|]; split; [assumption | apply Hst, Hs]|].
       split; [split; [apply p2e_ext_refl | assumption]|]. split; [reflexivity|].
       intros T (_ & B & C). rewrite spec_ctxtxn. apply Hev; assumption.
     - (* HRestart *)
       pose proof (ns_step_inv AliasCopy NRestart (wns w) Hn) as [Hn1 He1].
       pose proof (ns_step_extra AliasCopy NRestart (wns w) Hn Hx) as Hx1.
-      change (v_alias v_fixed) with AliasCopy. cbn [fst snd wns wid].
-      destruct Hg as [Hi Ha]. destruct (id_restart_spec L HL crash _ Hi) as (Hi1 & Hie & _ & Hm).
-      split; [split; [assumption|]; split; [assumption|]; split; [assumption | unfold alive; cbn; discriminate]|].
+      change (v_alias v_fixed) with AliasCopy. cbn [fst snd wns wid wstored].
+      destruct Hg as [Hi Ha]. destruct (id_restart_spec L HL crash _ Hi) as (Hi1 & Hie & Hd1 & Hm).
+      split; [split; [assumption|]; split; [assumption|]; split; [split; [assumption | unfold alive; cbn; discriminate]|];
+              cbn; exact Hs|].
       split; [split; assumption|]. split; reflexivity.
+    - (* HCrashWrite *)
+      destruct (crash_write_strong txn_path k ds ents pt w Hw) as (Hw1 & He1 & oc & ids & Ho & Hoc & Hev).
+      cbv zeta. rewrite Ho. split; [exact Hw1|]. split; [exact He1|]. split; [reflexivity|].
+      intros T (_ & _ & C). rewrite spec_crash, (oc_ok_true _ Hoc). apply Hev, C.
     - (* HDump *)
-      cbn [fst snd]. split; [split; [assumption|]; split; assumption|]. split; [apply wext_refl|].
-      split; [apply dump_ok_world; split; [assumption|]; split; assumption|].
-      intros T HT. apply dump_event; [split; [assumption|]; split; assumption | exact HT].
+      cbn [fst snd]. split; [exact Hw|]. split; [apply wext_refl|].
+      split; [apply dump_ok_world, Hw|].
+      intros T HT. apply dump_event; [exact Hw | exact HT].
   Qed.
 
   Lemma wrun_strong ops : forall w,
@@ -523,7 +660,7 @@ Section WorldFixed.
   Lemma winv_empty : winv (w_empty L).
   Proof.
     split; [apply nsw_inv_init|]. split; [split; [constructor | reflexivity]|].
-    split; [apply idinv_init | cbn; discriminate].
+    split; [split; [apply idinv_init | cbn; discriminate]|]. intros x [].
   Qed.
 
   Lemma winv_setup dss : winv (w_setup v_fixed L dss).
